@@ -180,6 +180,13 @@ for _i, _g in enumerate(GROUPS):
     _orbit_unit(_g, tiers=("quick", "thorough") if _i < 2 else ("thorough",))
 
 
+# ------------------------------------------------------------------ run(): option handling (the real run() + process(), machinery of C10)
+from contracts import C10 as _c10      # noqa: E402
+
+_c10._mk_unit(2, 0, "memory", True, ("quick", "thorough"), prop="C07")
+_c10._mk_unit(2, 0, "memory", False, ("quick", "thorough"), prop="C07")
+
+
 # ------------------------------------------------------------------ bounded stand-in: installed run()
 def _systems(n):
     import wannierberri as wb
@@ -220,7 +227,12 @@ def _real_symmetric(rng, n):
             grid = wb.grid.Grid(system, NK=NK, NKFFT=NKFFT)
             full = wb.run(system, grid=grid, calculators=mk(), adpt_num_iter=0, use_irred_kpt=False, symmetrize=False, print_Kpoints=False)
             sym = wb.run(system, grid=grid, calculators=mk(), adpt_num_iter=0, use_irred_kpt=True, symmetrize=True, print_Kpoints=False)
+            sym2 = wb.run(system, grid=grid, calculators=mk(), adpt_num_iter=0, use_irred_kpt=True, symmetrize=False, print_Kpoints=False)      # documented: symmetrisation is forced
             bad = []
+            for key in ("cumdos", "ahc", "ohmic", "berry_dipole", "opt"):
+                a2, b2 = sym2.results[key].data, sym.results[key].data
+                if a2.shape != b2.shape or float(abs(a2 - b2).max()) > 1e-9 * max(1e-12, float(abs(b2).max())) + 1e-9 * abs(float(getattr(mk()[key], "constant_factor", 1.0))):
+                    bad.append("%s: use_irred_kpt=True with symmetrize=False differs from symmetrize=True by %.2e" % (key, float(abs(a2 - b2).max())))
             for key in ("cumdos", "ahc", "ohmic", "berry_dipole", "opt"):
                 a, b = sym.results[key].data, full.results[key].data
                 sc = max(1e-12, float(abs(b).max()))
